@@ -8,19 +8,26 @@ MODULES = ["TinsModel.Props.C15"]
 AUDIT = "Audit/C15.lean"
 LEVEL = "proof"
 HARNESS = "c15_fields"
-DESIGN_ROWS_ESTIMATE = 350
 MANIFEST = dict(
     text="Lean 4 theorems: a generic bit-field lens over the header image (get-put, put-get, frame, disjointness) proved once; "
          "the compiler's struct layout (probe) and every one-statement accessor recognised in the C++ source proved equal to the "
-         "hand-written RFC/IEEE field table by `decide`; every hand-written shift/mask accessor (IP flags/fragment offset, IPv6 "
-         "traffic class/flow label, MPLS, Dot1Q id, SNAP, TCP flags, STP ids/timers, VXLAN, ...) proved equal to the lens for all "
-         "values and all images; small_uint rejection.  Tied to the code by a generated harness that pokes random header images "
-         "into real objects and runs every public setter/getter (exhaustive for small domains) under ASan/UBSan, compared 3-way "
-         "with the model and with the spec oracle (getter value, all other getters, serialisation diff confined to the field).",
+         "hand-written RFC/IEEE field table by kernel evaluation, class block by class block (with a lemma that the walk reaches every "
+         "row); every hand-written shift/mask accessor (IP flags/fragment offset, IPv6 traffic class/flow label, MPLS, Dot1Q id, SNAP, "
+         "TCP flags, STP ids/timers, VXLAN, 802.11 sequence/BlockAck control of every frame class, LLC address bits and control formats, "
+         "ICMP extension header, BootP chaddr, ...) proved equal to the lens for all values and all images; small_uint rejection.  "
+         "The table covers every class below include/tins that has scalar header-field setter/getter pairs (all 802.11 management / "
+         "control / data frames with their fixed parameters and capability bits, EAPOL RC4/RSN key descriptors, ICMP/ICMPv6 "
+         "type-specific layouts, BootP, DHCPv6 relay, LLC, RTP, RadioTap, PPI, Loopback, ICMP extensions, ...); coverage is computed "
+         "by the translator from the headers (pairs covered / pairs found).  Tied to the code by a generated harness that pokes "
+         "random header images into real objects and runs every public setter/getter (exhaustive for small domains) under "
+         "ASan/UBSan, compared 3-way with the model and with the spec oracle (getter value, all other getters, serialisation diff "
+         "confined to the field).",
     note="Trusted: Lean kernel + standard axioms; translator (regex recognition of one-statement accessors, layout probe compiled "
-         "by g++ with -fno-access-control); harness pokes the private header struct to create arbitrary prior states; "
-         "little-endian host branch only; classes outside Spec.lean are not covered (rows covered / design estimate in evidence).",
-    technique="Lean 4 proof (lens laws + table `decide` + all-values accessor proofs) + generated exhaustive correspondence",
+         "by g++ with -fno-access-control; header scan that counts the accessor pairs); harness pokes the private header struct to "
+         "create arbitrary prior states; little-endian host branch only; a class with several header shapes is covered shape by "
+         "shape (variants with the shape-selecting field held fixed); not covered: LLC::modifier_function (two separate bit groups: "
+         "not one field), LLC::type (selects the control format).",
+    technique="Lean 4 proof (lens laws + table certificate by kernel evaluation + all-values accessor proofs) + generated exhaustive correspondence",
     design="DESIGN.md §6 C15")
 
 
@@ -36,11 +43,28 @@ def mask_hex(k):
     return b.hex()
 
 
-# values / images the generators avoid (the serialisation changes shape there; out of scope of C15)
+# values / images the generators avoid (the serialisation changes shape there; out of scope of C15); the per-variant
+# constraints (type byte of an ICMPv6 variant, DS bits of a 4-address frame, ...) come from translator/gen_layout.py CONFIG
 AVOID_VALUES = {("DHCPv6", "msg_type"): {"12", "13"},          # relay-forward / relay-reply: different header layout
                 ("ICMPv6", "type"): {"1", "3", "143"}}         # RFC 4884 length byte / MLDv2 record count are derived there
 FIX_IMAGE = {"DHCPv6": lambda h: ("01" + h[2:]) if h[:2] in ("0c", "0d") else h,
              "ICMPv6": lambda h: ("80" + h[2:]) if h[:2] in ("01", "03", "8f") else h}
+
+
+def fix_image(g, cname, h):
+    if cname in FIX_IMAGE:
+        h = FIX_IMAGE[cname](h)
+    fx = g["fix"].get(cname)
+    if fx:
+        b = bytearray.fromhex(h)
+        for i, am, om in fx:
+            b[i] = (b[i] & am) | om
+        h = b.hex()
+    return h
+
+
+def avoided(g, cname, fld):
+    return set(AVOID_VALUES.get((cname, fld), ())) | set(g["avoid"].get(cname, {}).get(fld, ()))
 
 
 def rand_image(rng, L, default):
@@ -60,7 +84,7 @@ def rand_image(rng, L, default):
 def value_pool(rng, row, dom, exhaustive_bits, nrand):
     """values of the setter's parameter domain to try (decimal strings / x<hex>)"""
     if row["kind"] == "bytes":
-        n = row["width"] // 8
+        n = (row["width"] - (row["scale"].bit_length() - 1)) // 8
         vals = ["00" * n, "ff" * n, "01" + "00" * (n - 1), "00" * (n - 1) + "01", "80" + "00" * (n - 1), "00" * (n - 1) + "80"]
         vals += [bytes(rng.randrange(256) for _ in range(n)).hex() for _ in range(nrand)]
         return ["x" + v for v in vals]
@@ -78,6 +102,18 @@ def value_pool(rng, row, dom, exhaustive_bits, nrand):
     for _ in range(nrand):
         cand.add(rng.randrange(top + 1))
         cand.add(rng.randrange(rep + 1))
+    return [str(v) for v in sorted(c for c in cand if 0 <= c <= top)]
+
+
+def light_pool(rng, row, dom):
+    """a row whose accessor code is exercised at full strength in another class (inherited accessor / variant of the
+    same C++ class): boundaries + a few random values"""
+    if row["kind"] == "bytes":
+        n = (row["width"] - (row["scale"].bit_length() - 1)) // 8
+        return ["x" + v for v in ("00" * n, "ff" * n, bytes(rng.randrange(256) for _ in range(n)).hex())]
+    top = 2 ** dom - 1
+    rep = (2 ** row["width"] - 1) // row["scale"]
+    cand = {0, 1, rep, rep + 1, top, rng.randrange(rep + 1), rng.randrange(top + 1)}
     return [str(v) for v in sorted(c for c in cand if 0 <= c <= top)]
 
 
@@ -100,11 +136,21 @@ def gen_ops(g, rng, tier, only=None):
         mh = mask_hex(k)
         default = g["defaults"][cname]
         rw = [r for r in by_cls[cname] if r["access"] == "rw"]
+        light = {r["fld"] for r in rw if (cname, r["fld"]) in g["light"]}
         pools = {}
         for r in rw:
             dom = args[(cname, r["fld"])][0]
-            pools[r["fld"]] = [v for v in value_pool(rng, r, dom, exhaustive_bits, nrand)
-                               if v not in AVOID_VALUES.get((cname, r["fld"]), ())]
+            if r["fld"] not in light:
+                pool = value_pool(rng, r, dom, exhaustive_bits, nrand)
+            elif quick:
+                pool = light_pool(rng, r, dom)
+            else:
+                pool = value_pool(rng, r, dom, 8, 40)
+            pools[r["fld"]] = [v for v in pool if v not in avoided(g, cname, r["fld"])]
+        if not rw:
+            # getters only (parse-only class): the getters are judged against the image on every `init`
+            ops += [f"init {cname} {rand_image(rng, L, default)} {mh}" for _ in range(40 if quick else 2000)]
+            ops += [f"init {cname} {img} {mh}" for img in ("00" * L, "ff" * L, default)]
         # (0) every representable value of narrow fields (a sample for wide ones) from complementary prior images,
         #     so that each value is written over a field holding all-zeros, all-ones and random bits
         for r in rw:
@@ -115,18 +161,25 @@ def gen_ops(g, rng, tier, only=None):
                 rep_max = (2 ** w - 1) // sc
                 if rep_max < 16:
                     reps = [str(v) for v in range(rep_max + 1)]
+                elif r["fld"] in light:
+                    reps = [str(v) for v in sorted({0, rep_max, rng.randint(0, rep_max)})]
                 else:
                     reps = sorted({0, 1, rep_max, rep_max - 1, rep_max // 2, rep_max // 2 + 1} | {rng.randint(0, rep_max) for _ in range(10)})
                     reps = [str(v) for v in reps]
-            reps = [v for v in reps if v not in AVOID_VALUES.get((cname, r["fld"]), ())]
+            reps = [v for v in reps if v not in avoided(g, cname, r["fld"])]
             a = bytes(rng.randrange(256) for _ in range(L))
-            for img in (a.hex(), bytes(x ^ 0xff for x in a).hex(), "00" * L, "ff" * L):
+            imgs = (a.hex(), bytes(x ^ 0xff for x in a).hex(), "00" * L, "ff" * L)
+            if r["fld"] in light:
+                imgs = imgs[:2]
+            for img in imgs:
                 ops.append(f"init {cname} {img} {mh}")
                 seq = list(reps)
                 rng.shuffle(seq)
                 ops += [f"set {r['fld']} {v}" for v in seq]
         # (1) every value of the pool of every row, from random prior images
         for r in rw:
+            if quick and r["fld"] in light:
+                continue                                 # the small pool was used in (0) and is used again in (2)
             vals = list(pools[r["fld"]])
             if len(vals) > 4096:
                 pass                                     # exhaustive 16-bit sweep: keep the order (cheap), new image per chunk
@@ -136,17 +189,21 @@ def gen_ops(g, rng, tier, only=None):
                 ops.append(f"init {cname} {rand_image(rng, L, default)} {mh}")
                 ops += [f"set {r['fld']} {v}" for v in vals[i:i + per_case]]
         # (2) random interleavings of setters of different fields on one object
-        for _ in range(60 if quick else 1500):
+        full_share = (len(rw) - len(light)) / max(1, len(rw))
+        n_inter = 1000 if not light else max(100, int(1000 * full_share))
+        if quick:
+            n_inter = 60 if not light else max(10, int(60 * full_share))
+        usable = [r for r in rw if pools[r["fld"]]]
+        for _ in range(n_inter if usable else 0):
             ops.append(f"init {cname} {rand_image(rng, L, default)} {mh}")
             for _ in range(rng.randint(2, 14)):
-                r = rng.choice(rw)
+                r = rng.choice(usable)
                 ops.append(f"set {r['fld']} {rng.choice(pools[r['fld']])}")
-    fix = {c: f for c, f in FIX_IMAGE.items()}
     out = []
     for o in ops:
         w = o.split(" ")
-        if w[0] == "init" and w[1] in fix:
-            w[2] = fix[w[1]](w[2])
+        if w[0] == "init":
+            w[2] = fix_image(g, w[1], w[2])
             o = " ".join(w)
         out.append(o)
     return out
@@ -196,24 +253,31 @@ def run(chk):
         wit = kf.get("witness")
         if wit and sg.get("cls") in g["classes"]:
             k = g["classes"][sg["cls"]]
-            ops = [f"init {k['name']} {g['defaults'][k['name']]} {mask_hex(k)}"] + list(wit)
+            ops = [f"init {k['name']} {fix_image(g, k['name'], g['defaults'][k['name']])} {mask_hex(k)}"] + list(wit)
             corr.correspond(chk, AREA, exe, ops, case_start=("init",), classify=classify, sig_of=sig_of,
                             model=(k["name"] in modelled_cls), max_reports=2)
+    BATCH = 30000                                            # several classes per harness / driver process
     for group, with_model in ((modelled_cls, True), (unmodelled_cls, False)):
-        for cname in group:
-            ops = gen_ops(g, rng, chk.tier, only={cname})
+        pending = []
+
+        def flush():
             CH = 120000
-            # split at case boundaries
             start = 0
-            while start < len(ops):
-                end = min(len(ops), start + CH)
-                while end < len(ops) and not ops[end].startswith("init "):
+            while start < len(pending):                      # split at case boundaries
+                end = min(len(pending), start + CH)
+                while end < len(pending) and not pending[end].startswith("init "):
                     end += 1
-                st = corr.correspond(chk, AREA, exe, ops[start:end], case_start=("init",), classify=classify, sig_of=sig_of,
+                st = corr.correspond(chk, AREA, exe, pending[start:end], case_start=("init",), classify=classify, sig_of=sig_of,
                                      model=with_model, max_reports=4)
                 for a, b in st.items():
                     total[a] = total.get(a, 0) + b
                 start = end
+            del pending[:]
+        for cname in group:
+            pending += gen_ops(g, rng, chk.tier, only={cname})
+            if len(pending) >= BATCH:
+                flush()
+        flush()
     for p in problems:
         # a theorem no longer checks: the run above was the search for a concrete failing input; known findings do not count
         if not any(not nofail for (_, _, nofail) in chk.violations):
@@ -226,9 +290,18 @@ def run(chk):
     chk.extra["rows_hand_written_model"] = sorted(f"{c}.{f}" for c, f in custom_modelled)
     chk.extra["rows_oracle_only"] = sorted(f"{r['cls']}.{r['fld']}" for r in rows if r["cls"] in unmodelled_cls)
     chk.extra["classes_covered"] = all_cls
-    chk.extra["rows_covered_of_design_estimate"] = f"{len(rows)} / ~{DESIGN_ROWS_ESTIMATE}"
+    st = g["stats"]
+    chk.extra["cpp_classes_with_header_field_pairs (header scan)"] = st["classes_with_pairs"]
+    chk.extra["cpp_classes_fully_covered"] = f"{len(st['classes_fully_covered'])} / {len(st['classes_with_pairs'])}"
+    chk.extra["accessor_pairs_covered_of_found (header scan)"] = f"{st['pairs_covered']} / {st['pairs_total']}"
+    chk.extra["accessor_pairs_not_covered"] = st["pairs_uncovered"]
+    chk.extra["accessor_pairs_excluded_as_not_header_fields"] = st["excluded"]
+    chk.extra["spec_classes_incl_variants"] = len(all_cls)
     chk.extra["modelled_not_proved"] = ["derived bytes of the serialisation (lengths, checksums) are masked, not modelled (C05)",
-                                        "big-endian #if branches of the accessors"]
+                                        "big-endian #if branches of the accessors",
+                                        "LLC::modifier_function (the modifier bits are two separate groups of the control octet, not one "
+                                        "contiguous field) and LLC::type (selects the control format, i.e. the header's shape) have no row",
+                                        "PPI is parse-only: its four getters are judged against the poked image (no serialisation to compare)"]
     chk.cov["rule"] = ("case = (class, random/default/sparse header image poked into a fresh object, sequence of public setter calls); "
                        "values: every value of the C++ parameter domain when it has <= 8 bits (quick) / <= 16 bits (thorough), else "
                        "boundaries of the field width and of the parameter type, single bits, patterns and random values; "
@@ -240,10 +313,19 @@ def run(chk):
         "the object carries a 3-byte RawPDU payload (no payload for SNAP) so that next-protocol fields are not derived",
         "derived runs (lengths, checksums, header-length nibbles; Spec.classes) are masked out of the serialisation comparison",
         "enum-typed setters are exercised with values of the field's width only",
-        "DHCPv6: relay message types 12/13 (different header layout) are not generated",
+        "DHCPv6: relay message types 12/13 (different header layout) are not generated in class DHCPv6 (class DHCPv6Relay covers them)",
         "ICMPv6: types 1, 3 (RFC 4884 length byte derived) and 143 (MLDv2 record count derived) are not generated",
+        "variants: a class whose header shape depends on a field (ICMP / ICMPv6 type, 802.11 To DS + From DS, LLC format, RTP X bit, "
+        "DHCPv6 relay types) is covered shape by shape with that field held fixed (read-only row, image bytes forced by the generator)",
+        "802.11 frames with fixed parameters are exercised with From DS = 0 (with both DS bits set libtins inserts a fourth address "
+        "before the fixed parameters; the 4-address shape is covered by the *WDS variants)",
+        "rows whose accessor code is exercised at full strength in another class (inherited accessors, variants of one C++ class) "
+        "are sampled lightly there: boundary + random values (quick), every value of domains <= 8 bits + boundaries + 40 random values "
+        "(thorough); they take part in the interleavings like every other row",
+        "LLC: the cached format member type_ is set by LLC::type() after the image is poked (the generator keeps the type bits of the "
+        "control octet consistent with it)",
     ]
-    chk.trusted += ["translator/gen_layout.py (accessor recognition by regex; layout probe compiled against the current headers)",
+    chk.trusted += ["translator/gen_layout.py (accessor recognition by regex; layout probe compiled against the current headers; header scan counting the accessor pairs)",
                     "generated harness harness/c15_fields.cpp + generators in checks/C15.py",
                     "g++ 12 / ASan+UBSan build of the repo's working tree"]
     corr.finalize_cov(chk)
